@@ -1508,6 +1508,14 @@ func loopEnum(args []string, w *bufio.Writer) {
 	// more queued connections than the limit: the chain nests 32 callbacks, the 33rd accept is deferred
 	emit("obj 1 listener", strings.Repeat("peer 1 connect\n", 40), "accept 1 op=11 chain=45", "pending", "poll", "poll", "pending")
 	emit("obj 1 packet", strings.Repeat("peer 1 send 4\n", 40), "recvfrom 1 8 op=11 chain=45", "pending", "poll", "poll", "pending")
+	// zero-length reads (an empty payload of a length-prefixed protocol) complete at once like any other: chained over the limit,
+	// alone and alternating with one-byte reads
+	for _, kind := range []string{"tcp", "fifo"} {
+		for _, opn := range []string{"read", "readall"} {
+			emit("obj 1 "+kind, "peer 1 write 90", fmt.Sprintf("%s 1 0 op=11 chain=70", opn), "pending", "poll", "poll", "pending")
+			emit("obj 1 "+kind, "obj 2 tcp", "peer 1 write 90", "peer 2 write 90", fmt.Sprintf("%s 1 0 op=11 chain=31 then=read_2_1_op=+_chain=40", opn), "pending", "poll", "poll", "pending")
+		}
+	}
 	// connections handed out by AsyncAccept / used like dialled ones (adopt: the accepted connection becomes object 2)
 	acc := []string{"obj 1 listener", "peer 1 connect", "accept 1 op=11", "adopt 1 2"}
 	emit(append(acc, "peer 2 write 10", "readall 2 16 op=12", "pending", "poll", "peer 2 write 6", "poll", "pending")...)
